@@ -19,7 +19,7 @@ THEOREMS = [
     "C06_roundtrip_multi", "C06_roundtrip_single_partial", "C06_roundtrip_default_format",
     "C06_roundtrip_default_format_plain_partial", "C06_roundtrip_any_options_partial", "C06_roundtrip_multi_any_order",
     "C06_roundtrip_single_any_order_partial", "C06_edges_roundtrip_multi", "C06_wf_satisfiable",
-    "C06_second_run_roundtrip", "C06_second_run_satisfiable", "C06_former_findings_roundtrip", "C06_single_requirer_named_via_refuted",
+    "C06_second_run_roundtrip", "C06_second_run_satisfiable", "C06_self_edge_satisfiable", "C06_former_findings_roundtrip", "C06_single_requirer_named_via_refuted",
     "C06_gen_constants_ok",
 ]
 RULE = ("random dependency graphs (1-7 projects; names with dots/dashes/case, epochs, pre/post/dev/local versions, "
@@ -314,6 +314,25 @@ def gen_graph(rng, R) -> Dict[str, Any]:
                     a = rng.choice(askers)
                     a["reqs"].append(s["name"] + "[" + marker + "]" + gen_spec(rng, R, s["version"]))
             s["reqs"].append(mkreq(p, marker))
+    # self-referential extras (the usual spelling of an "everything" extra: P declares `P[io,viz] ; extra == "all"`),
+    # with and without an activating extra, requested extras and a specifier; which lines precede P's pin is left to chance
+    if rng.random() < 0.3:
+        p = rng.choice(projs)
+        kind = rng.choice(["all", "all", "plain", "spec"])
+        exs = rng.sample(EXTRA_POOL, rng.choice([1, 2]))
+        marker = rng.choice(["all", "full", "x"])
+        later = projs[projs.index(p) + 1:]
+        if later and rng.random() < 0.6:
+            p["reqs"].append(rng.choice(later)["name"] + ' ; extra == "' + exs[0] + '"')
+        if kind == "all":
+            p["reqs"].append(p["name"] + "[" + ",".join(exs) + '] ; extra == "' + marker + '"')
+        elif kind == "plain":
+            p["reqs"].append(p["name"] + "[" + ",".join(exs) + "]")
+        else:
+            p["reqs"].append(p["name"] + gen_spec(rng, R, p["version"]) + ' ; extra == "' + marker + '"')
+        if kind != "plain":
+            asker = rng.choice(roots + projs[:projs.index(p)])
+            asker["reqs"].append(p["name"] + "[" + marker + "]" + (gen_spec(rng, R, p["version"]) if rng.random() < 0.5 else ""))
     return {"projects": projs, "roots": roots}
 
 
@@ -585,7 +604,7 @@ def canon_spec(R, s: str) -> str:
 
 
 def _admissible(R, entries: List[Dict[str, Any]]) -> bool:
-    """Every specifier admits the version it is attached to and nobody requires itself."""
+    """Every specifier admits the version it is attached to."""
     norm = R.utils.normalize_project_name
     vers: Dict[str, Any] = {}
     for p in entries:
@@ -595,8 +614,6 @@ def _admissible(R, entries: List[Dict[str, Any]]) -> bool:
             return False
     for p in entries:
         for v in p["via"]:
-            if v["req"] and norm(v["req"]) == norm(p["name"]):
-                return False
             try:
                 if not R.SpecifierSet(v["spec"]).contains(vers[norm(p["name"])], prereleases=True):
                     return False
@@ -610,7 +627,8 @@ _SRC_RE = re.compile(r"^(\S+)(?: \(([^\[\]()]*?)\s*(?:\[[^\]]*\])?\))?$")
 
 def _last_call_inadmissible(R, real: Dict[str, Any]) -> bool:
     """The _add_sources call during which the real loader raised names a specifier that excludes the version of
-    its pin, or the pin itself as a requirer (graph surgery inside add_dist, C10's domain)."""
+    its pin (graph surgery inside add_dist, C10's domain).  A project requiring itself is NOT an excuse: self-referential
+    extras are ordinary solved graphs."""
     if not real.get("trace") or real.get("last_sources") is None:
         return False
     last = real["trace"][-1]
@@ -623,8 +641,6 @@ def _last_call_inadmissible(R, real: Dict[str, Any]) -> bool:
         m = _SRC_RE.match(src)
         if not m:
             continue
-        if norm(m.group(1).split("[")[0]) == norm(last["name"]):
-            return True
         try:
             if m.group(2) and not R.SpecifierSet(m.group(2)).contains(V, prereleases=True):
                 return True
